@@ -1,10 +1,10 @@
 SPECIFICATION MCSpec
 CONSTANTS AggReplace = FALSE
  AggKeepFirst = FALSE
- MCKinds = {"pro","agg"}
+ MCKinds = {"pro","agg","con"}
  MaxStores = 3
- MaxQ = 2
- MaxExp = 1
+ MaxQ = 1
+ MaxExp = 2
  MaxSet = 1
 INVARIANTS Safety
 PROPERTIES MCNeverReplaced MCOnlyStored
